@@ -57,7 +57,8 @@ def json_norm(o):
 
 
 # Keras bookkeeping that is not part of an object's own configuration.
-_BOOKKEEPING = ("build_config", "shared_object_id", "module", "registered_name")
+_BOOKKEEPING = ("build_config", "shared_object_id", "module", "registered_name",
+                "batch_input_shape", "build_input_shape")
 
 
 def _strip_object_names(o):
@@ -421,6 +422,9 @@ class ModelWorld(engine.World):
     conv = getattr(self.builder, "to_model_inputs", None)
     if conv is not None:
       return conv(tf, [tf.constant(c) for c in inputs])
+    conv = getattr(self.builder, "to_model_inputs_spec", None)
+    if conv is not None:
+      return conv(tf, [tf.constant(c) for c in inputs], self.spec)
     return [tf.constant(c) for c in inputs]
 
   def _forward(self, inputs):
@@ -635,6 +639,8 @@ class ModelWorld(engine.World):
           ev["eager"]))
     self.compiled = True
     self.calls = []
+    if getattr(self.builder, "to_model_inputs_spec", None) is not None:
+      x = self._model_inputs(x)
     with ctx.sut("fit"):
       self.model.fit(x, y, batch_size=int(ev["batch"]), epochs=1, verbose=0,
                      shuffle=False)
@@ -835,6 +841,21 @@ class ModelWorld(engine.World):
     fmt = img["fmt"]
     with ctx.sut("restore:" + fmt):
       if fmt in ("memory", "weights_h5", "weights_v3", "weights_tf"):
+        deferred = bool(rebuild and fmt == "weights_tf" and getattr(
+            self.builder, "can_defer", lambda sp: False)(self.spec))
+        if deferred:
+          # Unbuilt model: the checkpoint is matched now, values are restored
+          # when the variables are created by the first call.
+          model = self.builder.build(self.spec, defer=True)
+          model.load_weights(img["path"])
+          self.model, old = model, self.model
+          try:
+            model(self._model_inputs(img["probe_x"]))
+          finally:
+            self.model = old
+          ctx.fire("rebuild_from_user_code")
+          ctx.fire("deferred_restore")
+          return model
         if rebuild:
           model = self.builder.build(self.spec)
           ctx.fire("rebuild_from_user_code")
